@@ -798,6 +798,7 @@ func (a *sideEffectActor) resolveActors(c context.Context, t Transport, r []*url
 		act, more, err = a.dereferenceForResolvingInboxes(c, t, u)
 		if err != nil {
 			// Missing recipient -- skip.
+			err = nil
 			continue
 		}
 		var recurActors []vocab.Type
